@@ -334,8 +334,15 @@ PPL::Grid::generator_widening_assign(const Grid& y, unsigned* tp) {
 
   // Copy into `ggs' the generators of `x' that are common to `y',
   // according to the grid widening.
+  // Note: the selection depends on the coefficients of the parameters;
+  // those of a minimized system are only determined up to the lines.
+  // Work on representatives that only depend on the two grids.
+  Grid x_canonical(x);
+  Grid y_canonical(yy);
+  simplify(x_canonical.gen_sys, x_canonical.dim_kinds, true);
+  simplify(y_canonical.gen_sys, y_canonical.dim_kinds, true);
   Grid_Generator_System ggs;
-  x.select_wider_generators(yy, ggs);
+  x_canonical.select_wider_generators(y_canonical, ggs);
 
   if (ggs.num_parameters() == gen_sys.num_parameters()) {
     // All parameters are kept as parameters, thus the result is `x'.
